@@ -375,5 +375,8 @@ pub fn frame_pool(rng: &mut Rng, compressed: bool) -> Vec<Vec<u8>> {
     let max: u64 = if compressed { 1020 } else { 252 };
     for _ in 0..6 { let ty = 1 + rng.below(67) as u8; let len = 4 * rng.range(1, max / 4) as usize; let r = rng.bytes(len - 3); v.push(raw_frame(compressed, ty, rng.byte(), &r)); }
     v.retain(|f| f.len() % 4 == 0 && f.len() >= 4 && (f.len() as u64) <= max + if compressed { 0 } else { 3 });
+    // uncompressed mode can announce any length 4..=255: a peer's frame whose length is not a multiple of 4 (LFS never sends one) is still ONE frame
+    // of the announced length - it is decoded or refused as a unit and its successors are not disturbed
+    if !compressed { for len in [5usize, 6, 7, 9, 253, 254, 255] { for ty in [3u8, 33, rng.byte()] { let mut f = vec![len as u8, ty, rng.byte()]; f.extend(rng.bytes(len - 3)); if ty == 3 { f[3] = 0; } v.push(f); } } }
     v
 }
